@@ -116,3 +116,117 @@ class MergeCurves(Contract):
         return And(*cs)
 
     ensures = [prop("end-points-tangent-directions-and-parameters", lambda a, old, r: MergeCurves._post(a, r))]
+
+
+# -- spline_to_curves: every accepted merge was checked on ALL of its pieces ---------------------------
+
+class _Piece:
+    """one control point of a reconstructed piece: only differences to the original are taken"""
+    def __init__(self, key, idx):
+        self.key, self.idx = key, idx
+
+    def __sub__(self, other):
+        return _PieceDiff(self.key, self.idx)
+
+
+class _PieceDiff:
+    def __init__(self, key, idx):
+        self.key, self.idx = key, idx
+        self.hook = None
+
+    def __abs__(self):
+        return _PieceDiff.hook(self.key)
+
+
+class _Merged(tuple):
+    """the cubic returned by the merge_curves stub for quadratics start..start+n"""
+
+
+@contract
+class SplineToCurvesChecksEveryPiece(Contract):
+    """spline_to_curves over 2-4 quadratic segments, merge_curves / splitCubicAtTC /
+    cubic_farthest_fit_inside used through stubs: the distance of each reconstructed knot and
+    the fit verdict of each reconstructed piece are free symbols per (merge candidate, piece).
+    Whatever these are, a cubic in the result that replaces quadratics j..j+n has every inner
+    knot within the tolerance and EVERY one of its n pieces accepted by the fit test; the
+    result covers the segments in order, each once; and no cubic spans a sharp corner."""
+    module = "fontTools.qu2cu.qu2cu"
+    qualname = "spline_to_curves"
+    props = ("C13",)
+    rebind = REBIND
+    variants = ((2, False, None), (3, False, None), (2, True, None), (4, False, 2), (3, False, 1), (3, True, 2))
+    level = "PF"
+    assumptions = (A_REAL, "merge_curves, splitCubicAtTC and cubic_farthest_fit_inside are used through stubs: the geometric meaning of "
+                   "their results is under the contracts MergeCurves / Qu2cuFarthestFitInside, not here",)
+
+    def variants_for(self, tier):
+        return self.variants if tier != "quick" else tuple(v for v in self.variants if v != (3, True, 2))
+
+    def args(self, S, variant):
+        nq, all_cubic, corner = variant
+        mod = self.mod
+        knots, fits, asked = {}, {}, []
+
+        def knot(key):
+            if key not in knots:
+                knots[key] = S.real("knot_%d_%d_%d" % key)
+            return knots[key]
+
+        def fit(key):
+            if key not in fits:
+                fits[key] = S.bool("fit_%d_%d_%d" % key)
+            return fits[key]
+        _PieceDiff.hook = staticmethod(knot)
+
+        def merge_curves(curves, start, n):
+            return _Merged((("merged", start, n), None, None, None)), ()
+
+        def split(tag, *rest):
+            _, start, n = tag
+            for k in range(n):
+                yield tuple(_Piece((start, n, k), idx) for idx in range(4))
+
+        def inside(p0, p1, p2, p3, tolerance):
+            asked.append(p0.key)
+            return fit(p0.key)
+        mod.merge_curves, mod.splitCubicAtTC, mod.cubic_farthest_fit_inside = merge_curves, split, inside
+        # a smooth arc: inner on-curve points are the midpoints of their off-curve neighbours; the
+        # optional corner pulls on-curve point `corner` far off that line
+        offs = [complex(10 + 20 * k, 10 - (k - (nq - 1) / 2) ** 2) for k in range(nq)]
+        q = [complex(0, 0)]
+        for k in range(nq):
+            q.append(offs[k])
+            q.append((offs[k] + offs[k + 1]) / 2 if k + 1 < nq else offs[k] + complex(10, -10))
+        if corner is not None:
+            q[2 * corner] += complex(0, -40)
+        # vacuity guard: the sharp-corner test of the real code must see exactly the intended corner
+        from fontTools.qu2cu.qu2cu import elevate_quadratic as _elev
+        el = [_elev(*q[i: i + 3]) for i in range(0, len(q) - 2, 2)]
+        forced = {i for i in range(1, len(el)) if abs(el[i][0] - el[i - 1][2]) + abs(el[i][1] - el[i][0]) > 0.5 + abs(el[i][1] - el[i - 1][2])}
+        assert forced == ({corner} if corner is not None else set()), forced
+        return dict(q=q, costs=list(range(1, len(q) + 1)), tolerance=0.5, all_cubic=all_cubic,
+                    _nq=nq, _corner=corner, _knot=knot, _fit=fit, _knots=knots)
+
+    def requires(self, a):
+        return True
+
+    @staticmethod
+    def _post(a, r):
+        cs, pos = [], 0
+        for c in r:
+            if isinstance(c, _Merged):
+                _, start, n = c[0]
+                if start != pos:
+                    return False
+                cs += [a._knot((start, n, k)) <= a.tolerance for k in range(n - 1)]
+                cs += [a._fit((start, n, k)) for k in range(n)]
+                if a._corner is not None and start < a._corner < start + n:
+                    return False
+                pos += n
+            else:
+                if list(c) != a.q[2 * pos: 2 * pos + 3]:
+                    return False
+                pos += 1
+        return And(pos == a._nq, *cs)
+
+    ensures = [prop("accepted-merges-were-checked-on-every-piece", lambda a, old, r: SplineToCurvesChecksEveryPiece._post(a, r))]
